@@ -47,6 +47,10 @@ def run(ch: Checker) -> None:
     ch.rule('C10.6', 'hand-over of the received descriptor: on every normal path of ThreadlessFdExecutor.work the created work is stored in self.works (so that _cleanup -- the only '
                      'place that closes the received descriptor and forgets the work -- will run for it) or _cleanup(fileno) is attempted on that path', 1)
     ch.rule('C10.7', 'who may close: a socket owned by a work is closed only from the teardown callbacks (shared with C05.8): earlier closes leave the number registered and its bookkeeping behind', 3)
+    ch.rule('C10.9', 'who may set <connection>.closed = True (the flag under which TcpConnection.close() skips the real close): close() itself, TcpServerConnection.__init__ (not connected yet), '
+                     'HttpProtocolHandler.handle_data on client EOF (the client socket is closed through work.connection.close() in shutdown), HttpProxyPlugin._close_and_release (hand-over to the pool)', 4)
+    ch.rule('C10.10', 'the plugin object whose on_request_complete() is being run is already stored in self.plugin: if that call raises after it connected upstream, shutdown() still reaches '
+                      'plugin.on_client_connection_close(), the only place the upstream socket is closed / released', 1)
     ch.rule('C10.5', 'TcpConnection.close closes the socket only under `not self.closed` and sets closed = True on that path', 1)
 
     # ---------------- C10.1
@@ -239,6 +243,44 @@ def run(ch: Checker) -> None:
 
     # ---------------- C10.8 (shared)
     ch.import_rules('C09', {'C09.6': 'C10.8'}, 'a strict decode of wire bytes that raises on the way to the close callbacks aborts teardown before the upstream socket is released')
+
+    # ---------------- C10.9 who may set closed = True
+    ALLOWED_CLOSED = {'TcpConnection.close', 'TcpServerConnection.__init__', 'HttpProtocolHandler.handle_data', 'HttpProxyPlugin._close_and_release'}
+    for fn in prog.all_functions('proxy'):
+        if fn.module.name.startswith(('proxy.plugin', 'proxy.testing', 'proxy.http.websocket.client', 'proxy.http.client')):
+            continue
+        for st in walk_no_nested(fn.node):
+            if isinstance(st, ast.Assign) and any(isinstance(t, ast.Attribute) and t.attr == 'closed' for t in st.targets) and norm(st.value) == 'True':
+                ch.check(fn.qualname in ALLOWED_CLOSED, 'C10.9', fn, st, 'listed writer of the closed flag',
+                         '%s sets %s: TcpConnection.close() only closes the socket while `closed` is False, so from here on the teardown\'s close() does nothing and the descriptor is left '
+                         'to the garbage collector' % (fn.qualname, norm(st)))
+
+    # ---------------- C10.10 plugin registered before it acts
+    pfr = prog.own_method('HttpProtocolHandler', '_parse_first_request')
+    g10 = cfg_of(pfr, prog, exc_edges=False)
+    bad10 = None
+    n10 = 0
+    for p in fpaths(g10):
+        ch.paths += 1
+        sym = Sym(p)
+        for i, st in p.stmts():
+            for c in walk_no_nested(st):
+                if isinstance(c, ast.Call) and isinstance(c.func, ast.Attribute) and c.func.attr == 'on_request_complete':
+                    n10 += 1
+                    recv = c.func.value
+                    if attr_chain(recv) == 'self.plugin':
+                        stv = sym.attr_store('self.plugin', i)
+                        if stv is None:
+                            bad10 = ('on_request_complete() is called on self.plugin, which was not assigned on this path', p.describe(16))
+                    else:
+                        rv = norm(sym.value(recv, i))
+                        stv = sym.attr_store('self.plugin', i)
+                        if stv is None or norm(stv[1]) != rv:
+                            bad10 = ('on_request_complete() runs on %s before that object is stored in self.plugin: when it raises (a plugin rejecting the request after the upstream '
+                                     'connection was made) shutdown() sees self.plugin is None, never calls on_client_connection_close(), and the upstream socket / pool entry is never released'
+                                     % rv[:60], p.describe(16))
+    ch.check(bad10 is None and n10 > 0, 'C10.10', pfr, 'plugin registered before on_request_complete', 'self.plugin holds the plugin before its on_request_complete() runs (%d path(s))' % n10,
+             bad10[0] if bad10 else 'no call of on_request_complete found', witness=bad10[1] if bad10 else None)
 
     # ---------------- C10.5
     close = prog.own_method('TcpConnection', 'close')
